@@ -49,6 +49,7 @@ def plan(prop, tier):
         "rule": COMMON_RULE + " " + TEXT.get(prop, ""),
         "assumptions": COMMON_ASSUMPTIONS,
         "minimise_runs": 300 if tier == "quick" else 600,
+        "minimise_seconds": 40 if tier == "quick" else 120,
     }
 
 
